@@ -11,11 +11,12 @@ import Lungo.Props.C16
 #print axioms Lungo.Conc.C16.quiescent_free
 #print axioms Lungo.Conc.C16.starting_cleared
 #print axioms Lungo.Conc.C16.mutex_holder_enabled
-#print axioms Lungo.Conc.C16.shared_session_deadlock
-#print axioms Lungo.Conc.C16.mutex_holder_enabled_fails_shared
+#print axioms Lungo.Conc.C16.old_order_shared_session_deadlock
+#print axioms Lungo.Conc.C16.old_order_mutex_holder_enabled_fails
+#print axioms Lungo.Conc.C16.fixed_order_same_calls_progress
 #print axioms Lungo.Conc.C16.closed_stays_closed
 #print axioms Lungo.Conc.C16.closed_acquire_never_blocks
 #print axioms Lungo.Conc.C16.closed_prompt
 #print axioms Lungo.Conc.C16.closed_begin_returns_closed
 #print axioms Lungo.Conc.C16.no_deadlock
-#print axioms Lungo.Conc.C16.no_deadlock_fails_shared
+#print axioms Lungo.Conc.C16.old_order_no_deadlock_fails
